@@ -199,43 +199,321 @@ theorem bounded_fruitless_retries {M} (cfg : Cfg M) (first : ScanOut) (pre fr : 
     simp only [WFPhase] at hwf
     omega
 
-/-- `connectSSE` gives up after `maxRetries` transport errors in a row: the connection is failed -/
-theorem connect_attempts_bounded {M} (cfg : Cfg M) (first : ScanOut) (pre : List Attempt)
+/-- `connectSSE` gives up after `maxRetries` transport errors in a row — of ANY kinds —: the
+connection is failed -/
+theorem connect_attempts_bounded {M} (cfg : Cfg M) (first : ScanOut) (pre : List Attempt) (es : List TErr)
+    (hes : es.length = cfg.maxRetries)
     (p : Bytes) (r : Nat) (l : Bytes) (h : Int) (a : Nat)
     (hp : (run cfg first pre).phase = .reconnecting p r l h a) :
-    ∃ e, (run cfg first (pre ++ List.replicate cfg.maxRetries .terr)).phase = .ended e ∧ e.isFailure = true := by
-  apply bounded_fruitless_retries_aux
-  exact hp
-where
-  bounded_fruitless_retries_aux {M} {cfg : Cfg M} {first : ScanOut} {pre : List Attempt}
-      {p : Bytes} {r : Nat} {l : Bytes} {h : Int} {a : Nat}
-      (hp : (run cfg first pre).phase = .reconnecting p r l h a) :
-      ∃ e, (run cfg first (pre ++ List.replicate cfg.maxRetries .terr)).phase = .ended e ∧ e.isFailure = true := by
-    have hrun : run cfg first (pre ++ List.replicate cfg.maxRetries .terr) =
-        (List.replicate cfg.maxRetries Attempt.terr).foldl (step cfg) (run cfg first pre) := by
-      simp [run, List.foldl_append]
-    rw [hrun]
-    have hwf := run_wf cfg first pre
-    rw [hp] at hwf
-    -- k transport errors from attempt a: ended if a + k > maxRetries
-    have key : ∀ (k : Nat) (rn : Run M) (a : Nat), rn.phase = .reconnecting p r l h a → a ≤ cfg.maxRetries →
-        a + k > cfg.maxRetries →
-        ∃ e, ((List.replicate k Attempt.terr).foldl (step cfg) rn).phase = .ended e ∧ e.isFailure = true := by
-      intro k
-      induction k with
-      | zero => intro rn a _ hle hk; omega
-      | succ k ih =>
-        intro rn a hph hle hk
-        simp only [List.replicate_succ, List.foldl_cons]
-        by_cases hlast : a + 1 > cfg.maxRetries
-        · have hs : (step cfg rn .terr).phase = .ended (.failed .connect) := by
-            unfold step; rw [hph]; simp [hlast]
-          rw [foldl_step_ended cfg _ _ hs]
-          exact ⟨_, hs, rfl⟩
-        · have hs : (step cfg rn .terr).phase = .reconnecting p r l h (a + 1) := by
-            unfold step; rw [hph]; simp [hlast]
-          exact ih _ (a + 1) hs (by omega) (by omega)
-    exact key cfg.maxRetries _ a hp hwf.2.2 (by have := hwf.2.1; omega)
+    ∃ e, (run cfg first (pre ++ es.map .terr)).phase = .ended e ∧ e.isFailure = true := by
+  have hrun : run cfg first (pre ++ es.map .terr) = (es.map Attempt.terr).foldl (step cfg) (run cfg first pre) := by
+    simp [run, List.foldl_append]
+  rw [hrun]
+  have hwf := run_wf cfg first pre
+  rw [hp] at hwf
+  -- k transport errors from attempt a: ended if a + k > maxRetries
+  have key : ∀ (es : List TErr) (rn : Run M) (a : Nat), rn.phase = .reconnecting p r l h a → a ≤ cfg.maxRetries →
+      a + es.length > cfg.maxRetries →
+      ∃ e, ((es.map Attempt.terr).foldl (step cfg) rn).phase = .ended e ∧ e.isFailure = true := by
+    intro es
+    induction es with
+    | nil => intro rn a _ hle hk; simp at hk; omega
+    | cons e es ih =>
+      intro rn a hph hle hk
+      simp only [List.map_cons, List.foldl_cons]
+      by_cases hlast : errStops e = true ∨ a + 1 > cfg.maxRetries
+      · have hs : (step cfg rn (.terr e)).phase = .ended (.failed .connect) := by
+          unfold step; rw [hph]
+          rcases hlast with h1 | h1
+          · simp [h1]
+          · simp only; split
+            · rfl
+            · simp [h1]
+        rw [foldl_step_ended cfg _ _ hs]
+        exact ⟨_, hs, rfl⟩
+      · have h1 : errStops e = false := by
+          cases hx : errStops e with
+          | false => rfl
+          | true => exact absurd (.inl hx) hlast
+        have h2 : ¬ a + 1 > cfg.maxRetries := fun hx => hlast (.inr hx)
+        have hs : (step cfg rn (.terr e)).phase = .reconnecting p r l h (a + 1) := by
+          unfold step; rw [hph]; simp [h1, h2]
+        exact ih _ (a + 1) hs (by omega) (by simp at hk; omega)
+  exact key es _ a hp hwf.2.2 (by have := hwf.2.1; omega)
+
+/-! ## 4b. the KIND of a transport error does not matter: only the caller's context stops the loop -/
+
+-- (`errStops_never`, the regenerated fact the following rests on, is in LoopLemmas.lean)
+
+/-- a failed attempt within the budget, of any kind, changes nothing but the attempt counter (and the
+list of headers sent) -/
+theorem terr_within_budget {M} (cfg : Cfg M) (r : Run M) (e : TErr)
+    (p : Bytes) (rt : Nat) (l : Bytes) (h : Int) (a : Nat)
+    (hp : r.phase = .reconnecting p rt l h a) (hb : a + 1 ≤ cfg.maxRetries) :
+    (step cfg r (.terr e)).phase = .reconnecting p rt l h (a + 1) ∧ (step cfg r (.terr e)).msgs = r.msgs := by
+  unfold step
+  rw [hp]
+  simp only [errStops_never, Bool.false_eq_true, if_false]
+  rw [if_neg (by omega)]
+  exact ⟨rfl, rfl⟩
+
+theorem terrs_within_budget {M} (cfg : Cfg M) (es : List TErr) :
+    ∀ (r : Run M) (p : Bytes) (rt : Nat) (l : Bytes) (h : Int) (a : Nat),
+      r.phase = .reconnecting p rt l h a → a + es.length ≤ cfg.maxRetries →
+      ((es.map Attempt.terr).foldl (step cfg) r).phase = .reconnecting p rt l h (a + es.length) ∧
+      ((es.map Attempt.terr).foldl (step cfg) r).msgs = r.msgs := by
+  induction es with
+  | nil => intro r p rt l h a hp _; exact ⟨by simpa using hp, rfl⟩
+  | cons e es ih =>
+    intro r p rt l h a hp hb
+    simp only [List.length_cons] at hb
+    obtain ⟨h1, h2⟩ := terr_within_budget cfg r e p rt l h a hp (by omega)
+    obtain ⟨h3, h4⟩ := ih _ p rt l h (a + 1) h1 (by omega)
+    simp only [List.map_cons, List.foldl_cons, List.length_cons]
+    exact ⟨by rw [h3]; congr 1; omega, by rw [h4, h2]⟩
+
+/-- every body is followed by attempt number 1 -/
+theorem afterBody_attempt_one {M} (cfg : Cfg M) (prev : Bytes) (retries : Nat) (b : BodyOut M)
+    (p : Bytes) (rt : Nat) (l : Bytes) (h : Int) (a : Nat)
+    (hp : afterBody cfg prev retries b = .reconnecting p rt l h a) : a = 1 := by
+  unfold afterBody at hp
+  split at hp
+  · cases hp
+  · cases hp
+  · cases hp
+  · split at hp
+    · cases hp
+    · split at hp
+      · split at hp
+        · cases hp
+        · cases hp; rfl
+      · split at hp
+        · cases hp
+        · cases hp; rfl
+
+/-- a script in which every response is preceded by a list of failed attempts -/
+def withFaults (script : List (List TErr × Attempt)) : List Attempt :=
+  script.flatMap (fun p => p.1.map Attempt.terr ++ [p.2])
+
+/-- two loop states that differ in the headers sent only, about to make attempt number 1 -/
+def SameButHeaders {M} (r r' : Run M) : Prop :=
+  r.phase = r'.phase ∧ r.msgs = r'.msgs ∧ ∀ p rt l h a, r.phase = .reconnecting p rt l h a → a = 1
+
+theorem step_resp_same {M} (cfg : Cfg M) (r r' : Run M) (code : Nat) (body : Bytes → ScanOut) (es : List TErr)
+    (hs : SameButHeaders r r') (hb : es.length < cfg.maxRetries) :
+    SameButHeaders (step cfg ((es.map Attempt.terr).foldl (step cfg) r) (.resp code body)) (step cfg r' (.resp code body)) := by
+  obtain ⟨hph, hm, h1⟩ := hs
+  cases hp : r.phase with
+  | ended e =>
+    rw [foldl_step_ended cfg r e hp]
+    have hp' : r'.phase = .ended e := by rw [← hph, hp]
+    have e1 : step cfg r (.resp code body) = r := by unfold step; rw [hp]
+    have e2 : step cfg r' (.resp code body) = r' := by unfold step; rw [hp']
+    rw [e1, e2]
+    exact ⟨hph, hm, h1⟩
+  | reconnecting p rt l h a =>
+    have ha : a = 1 := h1 p rt l h a hp
+    subst ha
+    obtain ⟨h3, h4⟩ := terrs_within_budget cfg es r p rt l h 1 hp (by omega)
+    have hp' : r'.phase = .reconnecting p rt l h 1 := by rw [← hph, hp]
+    generalize (es.map Attempt.terr).foldl (step cfg) r = q at h3 h4
+    unfold step
+    rw [h3, hp']
+    simp only
+    cases hc : checkResponse code with
+    | some f => exact ⟨rfl, by rw [h4, hm], fun _ _ _ _ _ hx => by cases hx⟩
+    | none =>
+      simp only
+      refine ⟨rfl, by rw [h4, hm], fun p' rt' l' h' a' hx => ?_⟩
+      exact afterBody_attempt_one cfg _ _ _ _ _ _ _ _ hx
+
+/-- **Transient failures within the budget are invisible.**  For ANY server and ANY first body: put
+before every response of a script any list of failed attempts — of ANY kinds: plain errors, dial
+timeouts, "timeout awaiting response headers", `http.Client.Timeout`, errors that answer
+`errors.Is(context.Canceled)` — shorter than the budget (`maxRetries`).  The loop ends up in the same
+state (phase, retry counter, cursor) and has forwarded the same messages as without the failures. -/
+theorem transient_failures_within_budget_invisible {M} (cfg : Cfg M) (first : ScanOut)
+    (script : List (List TErr × Attempt))
+    (hb : ∀ p ∈ script, p.1.length < cfg.maxRetries)
+    (hr : ∀ p ∈ script, ∃ code body, p.2 = .resp code body) :
+    (run cfg first (withFaults script)).phase = (run cfg first (script.map (·.2))).phase ∧
+    (run cfg first (withFaults script)).msgs = (run cfg first (script.map (·.2))).msgs := by
+  unfold run withFaults
+  suffices h : ∀ r r' : Run M, SameButHeaders r r' →
+      SameButHeaders ((script.flatMap (fun p => p.1.map Attempt.terr ++ [p.2])).foldl (step cfg) r)
+        ((script.map (·.2)).foldl (step cfg) r') by
+    have h0 : SameButHeaders (start cfg first) (start cfg first) :=
+      ⟨rfl, rfl, fun p rt l h a hx => afterBody_attempt_one cfg _ _ _ _ _ _ _ _ hx⟩
+    exact ⟨(h _ _ h0).1, (h _ _ h0).2.1⟩
+  induction script with
+  | nil => intro r r' hs; simpa using hs
+  | cons pr rest ih =>
+    intro r r' hs
+    obtain ⟨code, body, hresp⟩ := hr pr (List.mem_cons_self ..)
+    simp only [List.flatMap_cons, List.map_cons, List.foldl_append, List.foldl_cons, List.foldl_nil, hresp]
+    apply ih (fun p hp => hb p (List.mem_cons_of_mem _ hp)) (fun p hp => hr p (List.mem_cons_of_mem _ hp))
+    exact step_resp_same cfg r r' code body pr.1 hs (hb pr (List.mem_cons_self ..))
+
+/-- the same against the faithful server -/
+def withFaultsF (script : List (List TErr × FAttempt)) : List FAttempt :=
+  script.flatMap (fun p => p.1.map (fun e => FAttempt.terr e) ++ [p.2])
+
+/-- **transient_failures_within_budget_complete_the_call.**  Against a faithful server, with the first
+body cut anywhere in either way: whatever failed attempts — of any kinds, fewer than the budget in a row
+— precede the responses of a script, if the exchange without them completes the pending call with the
+server's real response, so does the exchange with them; the session receives exactly the same
+messages (each message of a prefix of the server's log once, in order, none truncated), the server's
+response among them. -/
+theorem transient_failures_within_budget_complete_the_call {M} (cfg : Cfg M) (hd : cfg.dropUnterminated = true)
+    (hcur : cfg.forCall = true ∨ cfg.keepCursor = true)
+    (log : List Block) (hf : Faithful log) (cut0 : Nat) (t0 : Term)
+    (script : List (List TErr × FAttempt))
+    (hb : ∀ p ∈ script, p.1.length < cfg.maxRetries)
+    (hr : ∀ p ∈ script, ∃ code cut t, p.2 = .resp code cut t)
+    (hdone : (runF cfg log cut0 t0 (script.map (·.2))).phase = .ended .replied) :
+    (runF cfg log cut0 t0 (withFaultsF script)).phase = .ended .replied ∧
+    (runF cfg log cut0 t0 (withFaultsF script)).msgs = (runF cfg log cut0 t0 (script.map (·.2))).msgs ∧
+    (∃ n, n ≤ log.length ∧ (runF cfg log cut0 t0 (withFaultsF script)).msgs = specMsgs cfg (eventsOf (log.take n))) ∧
+    ∃ m ∈ (runF cfg log cut0 t0 (withFaultsF script)).msgs, cfg.isReply m = true := by
+  have e1 : withFaults (script.map (fun p => (p.1, toAttempt log p.2))) = (withFaultsF script).map (toAttempt log) := by
+    unfold withFaults withFaultsF
+    generalize script = sc
+    induction sc with
+    | nil => rfl
+    | cons p rest ih =>
+      simp only [List.map_cons, List.flatMap_cons, List.map_append, List.map_map, List.map_nil, ih]
+      congr 1
+  have e2 : (script.map (fun p => (p.1, toAttempt log p.2))).map (·.2) = (script.map (·.2)).map (toAttempt log) := by
+    simp [List.map_map, Function.comp_def]
+  have key := transient_failures_within_budget_invisible cfg (scanBytes ((serialize log).take cut0) t0)
+    (script.map (fun p => (p.1, toAttempt log p.2)))
+    (by intro p hp; obtain ⟨q, hq, rfl⟩ := List.mem_map.1 hp; exact hb q hq)
+    (by
+      intro p hp; obtain ⟨q, hq, rfl⟩ := List.mem_map.1 hp
+      obtain ⟨code, cut, t, h⟩ := hr q hq
+      exact ⟨code, fun hdr => scanBytes ((serialize (serve log hdr)).take cut) t, by simp only [h, toAttempt]⟩)
+  rw [e1, e2] at key
+  have hph : (runF cfg log cut0 t0 (withFaultsF script)).phase = .ended .replied := by
+    unfold runF at hdone ⊢; rw [key.1]; exact hdone
+  have hms : (runF cfg log cut0 t0 (withFaultsF script)).msgs = (runF cfg log cut0 t0 (script.map (·.2))).msgs := by
+    unfold runF; exact key.2
+  obtain ⟨n, hn, hm, _, hrep, _⟩ := delivered_exactly_once_in_order cfg hd hcur log hf cut0 t0 (withFaultsF script)
+  exact ⟨hph, hms, ⟨n, hn, hm⟩, hrep hph⟩
+
+/-! ## 4c. the caller's context -/
+
+/-- **caller_context_end_stops_the_loop** (the control): when the CALLER's context ends while the loop
+is reconnecting — during the wait, or with a request in flight — the loop stops there: no further
+attempt is made whatever follows, nothing more is forwarded, the connection is not failed (the call
+completes with the context's error in the layer above: C01/C04). -/
+theorem caller_context_end_stops_the_loop {M} (cfg : Cfg M) (first : ScanOut) (pre post : List Attempt) (sent : Bool)
+    (p : Bytes) (r : Nat) (l : Bytes) (h : Int) (a : Nat)
+    (hp : (run cfg first pre).phase = .reconnecting p r l h a) :
+    (run cfg first (pre ++ .ctxEnded sent :: post)).phase = .ended .cancelled ∧
+    (run cfg first (pre ++ .ctxEnded sent :: post)).msgs = (run cfg first pre).msgs ∧
+    (run cfg first (pre ++ .ctxEnded sent :: post)).headers =
+      (run cfg first pre).headers ++ (if sent then [l] else []) := by
+  have hrun : run cfg first (pre ++ .ctxEnded sent :: post) =
+      post.foldl (step cfg) (step cfg (run cfg first pre) (.ctxEnded sent)) := by
+    simp [run, List.foldl_append]
+  have hs : (step cfg (run cfg first pre) (.ctxEnded sent)).phase = .ended .cancelled ∧
+      (step cfg (run cfg first pre) (.ctxEnded sent)).msgs = (run cfg first pre).msgs ∧
+      (step cfg (run cfg first pre) (.ctxEnded sent)).headers =
+        (run cfg first pre).headers ++ (if sent then [l] else []) := by
+    unfold step; rw [hp]
+    refine ⟨rfl, rfl, ?_⟩
+    cases sent <;> simp
+  rw [hrun, foldl_step_ended cfg _ .cancelled hs.1 post]
+  exact hs
+
+/-! ## 4d. the handler of a call's stream never goes quiet (the client side of C01) -/
+
+theorem processItems_early {M} (cfg : Cfg M) (a : Acc M) (items : List Item) (e : BodyEnd)
+    (h : (processItems cfg a items).2 = some e) : e ≠ .streaming := by
+  induction items generalizing a with
+  | nil => simp [processItems] at h
+  | cons it rest ih =>
+    simp only [processItems] at h
+    split at h
+    · cases h; simp
+    · split at h
+      · exact ih _ h
+      · split at h
+        · exact ih _ h
+        · split at h
+          · cases h; simp
+          · split at h
+            · cases h; simp
+            · exact ih _ h
+
+/-- a body that has ended is never reported as still streaming -/
+theorem processBody_not_streaming {M} (cfg : Cfg M) (resume : Bytes) (out : ScanOut) (h : out.fin ≠ .stillOpen) :
+    (processBody cfg resume out).fin ≠ .streaming := by
+  unfold processBody
+  simp only
+  have hb : bodyEnd cfg (processItems cfg { lastID := resume } out.items).2 out.fin ≠ .streaming := by
+    unfold bodyEnd
+    cases he : (processItems cfg { lastID := resume } out.items).2 with
+    | some e => exact processItems_early cfg _ _ e he
+    | none =>
+      simp only
+      cases hf : out.fin with
+      | clean => simp
+      | readErr => simp
+      | malformed b => simp only; split <;> simp
+      | stillOpen => exact absurd hf h
+  generalize bodyEnd cfg (processItems cfg { lastID := resume } out.items).2 out.fin = e at hb
+  cases e <;> simp_all [mkBody]
+
+/-- **call_stream_never_goes_quiet.**  As long as every body the server sends ends (by a clean end of
+input, a read error or a malformed line — anything but staying open), after ANY first body and ANY
+sequence of attempts (failed ones of any kinds, responses with any status, the caller's context
+ending) the handler of a call's stream is in one of these states and in no other: it has forwarded the
+call's response, it has sent the synthetic error response for the call, it has failed the connection
+(every pending call then fails with the connection's error: C01, conn engine), it has stopped because
+the caller's own context ended (the call returns that error), or it is about to make a further
+attempt.  It never returns silently while the call is pending. -/
+theorem call_stream_never_goes_quiet {M} (cfg : Cfg M) (first : ScanOut) (script : List Attempt)
+    (h0 : first.fin ≠ .stillOpen)
+    (hs : ∀ code body, Attempt.resp code body ∈ script → ∀ hdr, (body hdr).fin ≠ .stillOpen) :
+    (run cfg first script).phase ≠ .ended .streaming := by
+  have hab : ∀ prev retries (b : BodyOut M), b.fin ≠ .streaming → afterBody cfg prev retries b ≠ .ended .streaming := by
+    intro prev retries b hb
+    unfold afterBody
+    split
+    · simp
+    · simp
+    · rename_i h; exact absurd h hb
+    · split
+      · simp
+      · split
+        · split <;> simp
+        · split <;> simp
+  unfold run
+  suffices h : ∀ r : Run M, r.phase ≠ .ended .streaming → (script.foldl (step cfg) r).phase ≠ .ended .streaming from
+    h _ (hab _ _ _ (processBody_not_streaming cfg [] first h0))
+  induction script with
+  | nil => intro r hr; simpa using hr
+  | cons a as ih =>
+    intro r hr
+    simp only [List.foldl_cons]
+    apply ih (fun code body hm => hs code body (List.mem_cons_of_mem _ hm))
+    unfold step
+    cases hp : r.phase with
+    | ended e => simp only; exact hr
+    | reconnecting prev retries lastID hint attempt =>
+      cases a with
+      | terr e =>
+        simp only
+        split
+        · simp
+        · split <;> simp
+      | ctxEnded sent => simp
+      | resp code body =>
+        simp only
+        split
+        · simp
+        · exact hab _ _ _ (processBody_not_streaming cfg _ _ (hs code body (List.mem_cons_self ..) lastID))
 
 /-! ## 5. unresumable streams -/
 
@@ -303,10 +581,34 @@ example : exStream.length = 33 := by decide
 /-- non-vacuity of the end-to-end statement: cut after the first event by a read error, one transport
 error, an empty resumed body, then the rest: both messages, each once; headers all "1" -/
 example :
-    (runF (exCfg true true) exBlocks 16 .err [.terr, .resp 200 0 .eof, .resp 200 100 .eof]).msgs = [1, 2] ∧
-    (runF (exCfg true true) exBlocks 16 .err [.terr, .resp 200 0 .eof, .resp 200 100 .eof]).headers = [[49], [49], [49]] ∧
-    (runF (exCfg true true) exBlocks 16 .err [.terr, .resp 200 0 .eof, .resp 200 100 .eof]).phase = .ended .replied := by
+    (runF (exCfg true true) exBlocks 16 .err [.terr {}, .resp 200 0 .eof, .resp 200 100 .eof]).msgs = [1, 2] ∧
+    (runF (exCfg true true) exBlocks 16 .err [.terr {}, .resp 200 0 .eof, .resp 200 100 .eof]).headers = [[49], [49], [49]] ∧
+    (runF (exCfg true true) exBlocks 16 .err [.terr {}, .resp 200 0 .eof, .resp 200 100 .eof]).phase = .ended .replied := by
   decide
+
+/-- non-vacuity: the first body cut after event "1" by a read error; a dial timeout (answers
+`Is(DeadlineExceeded)` and `Timeout()`) before an empty resumed body, an error that answers
+`Is(Canceled)` before the rest: the call completes with both messages, as without the failures -/
+example :
+    (runF (exCfg true true) exBlocks 16 .err (withFaultsF
+      [([{ isDeadline := true, isTimeout := true }], .resp 200 0 .eof), ([{ isCanceled := true }], .resp 200 100 .eof)])).phase
+        = .ended .replied ∧
+    (runF (exCfg true true) exBlocks 16 .err (withFaultsF
+      [([{ isDeadline := true, isTimeout := true }], .resp 200 0 .eof), ([{ isCanceled := true }], .resp 200 100 .eof)])).msgs
+        = [1, 2] ∧
+    (runF (exCfg true true) exBlocks 16 .err [.resp 200 0 .eof, .resp 200 100 .eof]).phase = .ended .replied := by
+  decide
+
+/-- the bound is needed: `maxRetries` (= 2) failed attempts in a row fail the connection although the
+server would have answered the third -/
+example :
+    (runF (exCfg true true) exBlocks 16 .err (withFaultsF
+      [([{ isDeadline := true }, { isTimeout := true }], .resp 200 100 .eof)])).phase = .ended (.failed .connect) := by
+  decide
+
+/-- the hypothesis is needed: a server that leaves the body of a call open without sending the
+response keeps the call pending -/
+example : (runF (exCfg true true) exBlocks 16 .open []).phase = .ended .streaming := by decide
 
 /-- the scanner itself (and therefore the exported `scanEvents`, whose dispatch at the end of input is
 pinned by `TestScanEvents`) does yield the trailing incomplete event at a clean end of input: here the
